@@ -11,7 +11,17 @@ Reads (pure `ast`, never importing mici) `utils.py`, `transitions.py`, `stagers.
                                (over `Nat`/`Rat`, like `Model/Stagers.lean`);
 * `Generated/AdaptersSrc.lean` the scalar arithmetic of the dual-averaging `update`, the
                                Welford updates, the Chan merge steps and the initial step-size
-                               search loop (over a field `K`, like `Model/Adapters.lean`).
+                               search loop (over a field `K`, like `Model/Adapters.lean`); and the
+                               whole methods: `DualAveragingStepSizeAdapter.__init__` (stored
+                               attributes, defaults), `.initialize` (state dictionary, `is None`
+                               selection of the regularisation target, call of the search),
+                               `._find_and_set_init_step_size` (NaN guard, initial step size,
+                               threshold, loop bound, exhausted-loop error around the loop body),
+                               the three reducers of the module, `__init__` / `initialize` of the
+                               two metric adapters and their complete `finalize` (single state or
+                               loop over the chains, error, normalisation, regularisation, matrix
+                               class and `.inv` of the new metric, per-chain cache clearing and
+                               momentum refresh).
 
 The theorems `src_<name>_eq_model` of `Props/C20S.lean`, `C16S.lean`, `C17S.lean` state that each
 generated definition equals the hand-written model definition, so that every property theorem
@@ -36,6 +46,20 @@ correspondence runs, not proved):
             checking its defining comprehension, `None` .main), `trace_funcs=` to "is set".
   adapters  NumPy arrays are one scalar component (the per-entry form of `Model/Adapters.lean`),
             `x ** 2` is `x * x`, dictionary entries of the adapter state are structure fields.
+            Whole methods: loops are applications of the combinators of `Lemmas/PySrcAdaptersBase.lean`
+            (`mergeLoop3/4`: `for i, s in enumerate(adapt_states): if i == 0 … else …`; `searchFor`: `for s in
+            range(N): try … except IntegratorError …` then `raise`) to the generated loop bodies; the step
+            size of the search is its exponent of 2 (`= 1` is exponent 0, `/= 2`, `*= 2`), the trial step and
+            the Hamiltonian are the oracle `dH`, `np.isnan(h_init)` a Boolean argument; an optional setting
+            (`float | None`) is `Option K` and may only be consumed under an `is None` test (`x or y` on it is
+            rejected: truthiness would replace an explicit 0.0); decimal defaults are the exact rationals of
+            their source text; `np.zeros…` of the position's shape is 0; `Cls(est).inv` is the record
+            `⟨class, inverse := true, est⟩` handed to an abstract matrix constructor `mk`; `chain_state.pos =
+            chain_state.pos` is the abstract cache-clearing action `clear`, `system.sample_momentum(chain_state,
+            rng)` is `sample <metric in force at that statement> chain_state rng`, `chain_states` / `rngs` are
+            one list of pairs (equal lengths: `zip(strict=True)`), the single-state branch wraps both in
+            one-element lists; messages of exceptions are dropped, the two `AdaptationError`s of the search
+            are distinguished by position.
 """
 from __future__ import annotations
 
@@ -1345,10 +1369,10 @@ def emit_adapters(repo: Path, out: Path):  # noqa: C901, PLR0915
     lines = [
         "/- GENERATED by tools/extractors/pysrc.py from src/mici/adapters.py of the tree under test.",
         "   Do not edit.  Per-component scalar form of the NumPy code (see the extractor docstring). -/",
-        "import MiciVerif.Model.Adapters",
+        "import MiciVerif.Lemmas.PySrcAdaptersBase",
         "set_option linter.unusedVariables false",
         "namespace MiciVerif.Generated.AdaptersSrc",
-        "open MiciVerif.Adapters",
+        "open MiciVerif.Adapters MiciVerif.PySrcAdapters",
         "",
     ]
     try:
@@ -1533,34 +1557,43 @@ def emit_adapters(repo: Path, out: Path):  # noqa: C901, PLR0915
     emit("cov_regularize", "(off : Nat) (scale : K) (v : K) (n : Nat) (diag : Bool)", "K", "v",
          build_regularize("OnlineCovarianceMetricAdapter", "_regularize_covar_est", "covar_est", True))
 
+    def finalize_tail(cls, est, meth):
+        """(fn, the three statements `if n_iter < 2: raise`, `est /= n_iter - 1`, `self._regularize…(est, n_iter)`,
+        the statements after them)."""
+        fn = find_func(tree, "finalize", cls)
+        pos, kwo = arg_names(fn)
+        if pos != ["self", "adapt_states", "chain_states", "transition", "rngs"] or kwo or fn.decorator_list:
+            raise U("signature of finalize changed", fn)
+        body = strip_doc(fn.body)
+        idx = [i for i, st in enumerate(body) if isinstance(st, ast.If) and ast.unparse(st.test) == "isinstance(adapt_states, dict)"]
+        if idx != [0]:
+            raise U("finalize does not start with the accumulation block", fn)
+        tail = body[1:]
+        if len(tail) < 3:
+            raise U("statements after the accumulation block changed", fn)
+        g = tail[0]
+        if not (isinstance(g, ast.If) and isinstance(g.test, ast.Compare) and len(g.test.ops) == 1 and type(g.test.ops[0]) in CMP_SYM
+                and isinstance(g.test.left, ast.Name) and g.test.left.id == "n_iter" and isinstance(g.test.comparators[0], ast.Constant)
+                and isinstance(g.test.comparators[0].value, int) and not isinstance(g.test.comparators[0].value, bool)
+                and g.test.comparators[0].value >= 0
+                and not g.orelse and isinstance(g.body[-1], ast.Raise)
+                and g.body[-1].exc is not None and ast.unparse(g.body[-1].exc).startswith("AdaptationError")
+                and all(isinstance(b, ast.Assign) and isinstance(b.value, (ast.Constant, ast.JoinedStr)) for b in g.body[:-1])):
+            raise U("the check for fewer than two samples changed", g)
+        if not (isinstance(tail[1], ast.AugAssign) and isinstance(tail[1].target, ast.Name) and tail[1].target.id == est):
+            raise U("the estimate is not normalised in place", tail[1])
+        if ast.unparse(tail[2]) != f"self.{meth}({est}, n_iter)":
+            raise U("regularisation call changed", tail[2])
+        return fn, body[0], tail[:3], tail[3:]
+
     def build_finalize_tail(cls, est, meth, regname, extra, metric_cls):
         def build():
-            fn = find_func(tree, "finalize", cls)
-            body = strip_doc(fn.body)
-            idx = [i for i, st in enumerate(body) if isinstance(st, ast.If) and ast.unparse(st.test) == "isinstance(adapt_states, dict)"]
-            if idx != [0]:
-                raise U("finalize does not start with the accumulation block", fn)
-            tail = body[1:]
-            srcs = [ast.unparse(x) for x in tail]
-            if len(tail) != 5:
-                raise U("statements after the accumulation block changed", fn)
-            g = tail[0]
-            if not (isinstance(g, ast.If) and ast.unparse(g.test) == "n_iter < 2" and not g.orelse and isinstance(g.body[-1], ast.Raise)
-                    and ast.unparse(g.body[-1].exc).startswith("AdaptationError")):
-                raise U("the check for fewer than two samples changed", g)
+            fn, _, arith, _ = finalize_tail(cls, est, meth)
             tr = NumTr("-", {}, {}, {est: ("K", "acc.c"), "n_iter": ("Nat", "acc.iter")})
-            if not isinstance(tail[1], ast.AugAssign):
-                raise U("the estimate is not normalised in place", tail[1])
-            tr.run([tail[1]])
-            if srcs[2] != f"self.{meth}({est}, n_iter)":
-                raise U("regularisation call changed", tail[2])
-            if srcs[3] != f"transition.system.metric = {metric_cls}({est}).inv":
-                raise U("metric assignment changed", tail[3])
-            want = ("for chain_state, rng in zip(chain_states, rngs, strict=True):\n    chain_state.pos = chain_state.pos\n"
-                    "    chain_state.mom = transition.system.sample_momentum(chain_state, rng)")
-            if srcs[4] != want:
-                raise U("momentum refresh loop changed", tail[4])
-            return tr.body(f"if acc.iter < 2 then .error .tooFewSamples else .ok ({regname} off scale {tr.env[est][1]} acc.iter{extra})")
+            tr.run([arith[1]])
+            g = arith[0].test
+            cond = f"acc.iter {CMP_SYM[type(g.ops[0])]} {g.comparators[0].value}"
+            return tr.body(f"if {cond} then .error .tooFewSamples else .ok ({regname} off scale {tr.env[est][1]} acc.iter{extra})")
 
         return build
 
@@ -1666,27 +1699,24 @@ def emit_adapters(repo: Path, out: Path):  # noqa: C901, PLR0915
         lp = loops[0]
         i = body.index(lp)
         pre = srcs[:i]
-        want_pre = ["init_state = state.copy()", "h_init = system.h(init_state)", None, "integrator.step_size = 1", "delta_h_threshold = log(2)"]
-        if len(pre) != 5 or any(w is not None and w != p for w, p in zip(want_pre, pre)):
+        if pre[:2] != ["init_state = state.copy()", "h_init = system.h(init_state)"]:
             raise U("statements before the search loop changed", fn)
-        g = body[2]
-        if not (isinstance(g, ast.If) and ast.unparse(g.test) == "np.isnan(h_init)" and not g.orelse and isinstance(g.body[-1], ast.Raise)):
-            raise U("NaN check of the initial Hamiltonian changed", g)
         post = body[i + 1:]
         if not (post and isinstance(post[-1], ast.Raise) and ast.unparse(post[-1].exc).startswith("AdaptationError")
                 and all(isinstance(x, ast.Assign) for x in post[:-1])):
             raise U("the search does not end by raising AdaptationError", fn)
-        if ast.unparse(lp.target) != "s" or ast.unparse(lp.iter) != "range(self.max_init_step_size_iters)" or lp.orelse:
+        if (ast.unparse(lp.target) != "s" or lp.orelse or not (isinstance(lp.iter, ast.Call) and ast.unparse(lp.iter.func) == "range"
+                                                                 and len(lp.iter.args) == 1 and not lp.iter.keywords)):
             raise U("loop header changed", lp)
         if len(lp.body) != 1 or not isinstance(lp.body[0], ast.Try):
             raise U("loop body is not a single try statement", lp)
         t = lp.body[0]
         if t.orelse or t.finalbody or len(t.handlers) != 1 or ast.unparse(t.handlers[0].type) != "IntegratorError" or t.handlers[0].name:
             raise U("exception handling of the loop body changed", t)
-        return t.body, t.handlers[0].body
+        return t.body, t.handlers[0].body, body[:i], lp, post
 
     def build_try():
-        body, _ = search_parts()
+        body, *_ = search_parts()
         lets: list[str] = []
         env = brun(body, {"step_size_too_big": "step_size_too_big", "halve": None, "ret": None}, lets)
         if env.get("state") != "done" or env.get("delta_h") != "done":
@@ -1697,7 +1727,7 @@ def emit_adapters(repo: Path, out: Path):  # noqa: C901, PLR0915
         return "\n".join(f"  {l}" for l in [*lets, f"({ret}, {env['step_size_too_big']}, {env['halve']})"])
 
     def build_except():
-        _, handler = search_parts()
+        _, handler, *_ = search_parts()
         env = brun(handler, {"step_size_too_big": "step_size_too_big", "halve": None, "ret": None}, None)
         if env["halve"] is None or env["ret"] is not None or "state" in env:
             raise U("handler does not just update the step size")
@@ -1705,6 +1735,545 @@ def emit_adapters(repo: Path, out: Path):  # noqa: C901, PLR0915
 
     emit("search_try", "(first isnan gt le step_size_too_big : Bool)", "Bool × Bool × Bool", "(false, false, false)", build_try, binders="")
     emit("search_except", "(step_size_too_big : Bool)", "Bool × Bool", "(false, false)", build_except, binders="")
+
+    # =================================================================================
+    # whole methods: constructors, `initialize`, the complete search, reducers, whole `finalize`
+    # =================================================================================
+
+    def rat_lit(v, node=None):
+        """Exact rational of a non-negative decimal literal, as a Lean `Rat` term."""
+        if isinstance(v, bool) or not isinstance(v, (int, float)) or v < 0 or v != v or v in (float("inf"),):
+            raise U(f"default {v!r} outside the supported set", node)
+        q = Fraction(repr(v)) if isinstance(v, float) else Fraction(v)
+        return f"({q.numerator} / {q.denominator} : Rat)"
+
+    def k_lit(v, node=None):
+        """A non-negative numeric literal as a term of `K`."""
+        if isinstance(v, bool) or not isinstance(v, (int, float)) or v < 0 or v != v or v == float("inf"):
+            raise U(f"literal {v!r} outside the supported set", node)
+        q = Fraction(repr(v)) if isinstance(v, float) else Fraction(v)
+        if q.denominator == 1 and q.numerator in (0, 1):
+            return f"({q.numerator} : K)"
+        if q.denominator == 1:
+            return f"(({q.numerator} : Nat) : K)"
+        return f"((({q.numerator} : Nat) : K) / (({q.denominator} : Nat) : K))"
+
+    def nat_lit(v, node=None):
+        if isinstance(v, bool) or not isinstance(v, int) or v < 0:
+            raise U(f"{v!r} is not a non-negative integer literal", node)
+        return str(v)
+
+    def self_assignments(fn, fields):
+        """`self.<field> = <expr>` statements of a constructor: {field: expr}; anything else fails closed."""
+        got = {}
+        for st in strip_doc(fn.body):
+            if isinstance(st, ast.Expr) and isinstance(st.value, ast.Constant):
+                continue
+            if (isinstance(st, ast.Assign) and len(st.targets) == 1 and isinstance(st.targets[0], ast.Attribute)
+                    and isinstance(st.targets[0].value, ast.Name) and st.targets[0].value.id == "self"
+                    and st.targets[0].attr in fields and st.targets[0].attr not in got):
+                got[st.targets[0].attr] = st.value
+                continue
+            raise U(f"statement of __init__ outside the translated subset: {ast.unparse(st)[:60]}", st)
+        if set(got) != set(fields):
+            raise U(f"__init__ does not store {sorted(set(fields) - set(got))}", fn)
+        return got
+
+    # ---- DualAveragingStepSizeAdapter.__init__ ------------------------------------------
+    DA_ARGS = [  # (argument, type of the argument, field of DAConfig, type of the field)
+        ("adapt_stat_target", "K", "adaptStatTarget", "K"), ("adapt_stat_func", "OptFn", "adaptStatFunc", "SelFn"),
+        ("log_step_size_reg_target", "OptK", "regTarget", "OptK"), ("log_step_size_reg_coefficient", "K", "regCoeff", "K"),
+        ("iter_decay_coeff", "K", "iterDecayCoeff", "K"), ("iter_offset", "Nat", "iterOffset", "Nat"),
+        ("max_init_step_size_iters", "Nat", "maxInitStepSizeIters", "Nat"), ("log_step_size_reducer", "OptRed", "reducer", "SelRed"),
+    ]
+    REDUCER_SEL = {"arithmetic_mean_log_step_size_reducer": ".arith", "geometric_mean_log_step_size_reducer": ".geom",
+                   "min_log_step_size_reducer": ".min"}
+
+    def da_init_fn():
+        fn = find_func(tree, "__init__", "DualAveragingStepSizeAdapter")
+        pos, kwo = arg_names(fn)
+        if pos != ["self"] + [a for a, *_ in DA_ARGS] or kwo or fn.decorator_list or len(fn.args.defaults) != len(DA_ARGS):
+            raise U("signature of __init__ changed", fn)
+        return fn
+
+    def build_da_defaults():
+        fn = da_init_fn()
+        out = []
+        for (arg, ty, _, _), d in zip(DA_ARGS, fn.args.defaults, strict=True):
+            if not isinstance(d, ast.Constant):
+                raise U(f"default of {arg} is not a literal", d)
+            if ty == "K":
+                out.append(rat_lit(d.value, d))
+            elif ty == "Nat":
+                out.append(nat_lit(d.value, d))
+            elif ty == "OptK":
+                out.append("none" if d.value is None else f"some {rat_lit(d.value, d)}")
+            else:
+                if d.value is not None:
+                    raise U(f"default of {arg} is not None", d)
+                out.append("true")
+        return "  ⟨" + ", ".join(out) + "⟩"
+
+    def default_stat_func_ok():
+        fn = find_func(tree, "default_adapt_stat_func")
+        body = strip_doc(fn.body)
+        return (arg_names(fn) == (["stats"], []) and len(body) == 1 and isinstance(body[0], ast.Return)
+                and body[0].value is not None and ast.unparse(body[0].value) == "stats['accept_stat']")
+
+    def build_da_init():
+        fn = da_init_fn()
+        vals = self_assignments(fn, [a for a, *_ in DA_ARGS])
+        argty = {a: t for a, t, *_ in DA_ARGS}
+
+        def sel(name, kind, node):
+            if kind == "SelFn":
+                if name == "default_adapt_stat_func" and default_stat_func_ok():
+                    return ".acceptStat"
+                raise U(f"default statistic function {name} is not `stats['accept_stat']`", node)
+            if name in REDUCER_SEL:
+                return REDUCER_SEL[name]
+            raise U(f"default reducer {name} is not one of the reducers of the module", node)
+
+        fields = []
+        for arg, _, field, fty in DA_ARGS:
+            v = vals[arg]
+            if isinstance(v, ast.Name) and v.id in argty:
+                if argty[v.id] != fty:
+                    raise U(f"self.{arg} = {v.id}: an argument of another kind is stored", v)
+                fields.append(f"{field} := {v.id}")
+                continue
+            if isinstance(v, ast.IfExp) and fty in ("SelFn", "SelRed"):
+                t = ast.unparse(v.test)
+                opt = "OptFn" if fty == "SelFn" else "OptRed"
+                for a, ty in argty.items():
+                    if ty != opt:
+                        continue
+                    if t == f"{a} is None" and isinstance(v.body, ast.Name) and isinstance(v.orelse, ast.Name) and v.orelse.id == a:
+                        fields.append(f"{field} := (match {a} with | none => {sel(v.body.id, fty, v)} | some f => .custom f)")
+                        break
+                    if t == f"{a} is not None" and isinstance(v.orelse, ast.Name) and isinstance(v.body, ast.Name) and v.body.id == a:
+                        fields.append(f"{field} := (match {a} with | none => {sel(v.orelse.id, fty, v)} | some f => .custom f)")
+                        break
+                else:
+                    raise U(f"unsupported selection for self.{arg}: {ast.unparse(v)[:60]}", v)
+                continue
+            raise U(f"self.{arg} = {ast.unparse(v)[:60]}: outside the translated subset", v)
+        return "  { " + ",\n    ".join(fields) + " }"
+
+    emit("da_init_defaults", "", "DADefaults", "⟨0, false, none, 0, 0, 0, 0, false⟩", build_da_defaults, binders="")
+    emit("da_init",
+         "(adapt_stat_target : K) (adapt_stat_func : Option Fn) (log_step_size_reg_target : Option K) "
+         "(log_step_size_reg_coefficient iter_decay_coeff : K) (iter_offset max_init_step_size_iters : Nat) "
+         "(log_step_size_reducer : Option Red)", "DAConfig K Fn Red",
+         "⟨adapt_stat_target, .acceptStat, none, adapt_stat_target, adapt_stat_target, 0, 0, .geom⟩", build_da_init,
+         binders="{K Fn Red : Type}")
+
+    # ---- DualAveragingStepSizeAdapter.initialize ------------------------------------------
+    SEARCH_SIG = ["self", "state", "system", "integrator"]
+    da_init_side = {"search_args": None}
+
+    def build_da_initialize():  # noqa: C901, PLR0912, PLR0915
+        fn = find_func(tree, "initialize", "DualAveragingStepSizeAdapter")
+        pos, kwo = arg_names(fn)
+        if pos != ["self", "chain_state", "transition"] or kwo or fn.decorator_list:
+            raise U("signature of initialize changed", fn)
+        alias = {}
+        state = {}
+        dict_name = None
+        lets = []
+        have_init = False
+
+        def kx(n, some_var=None):
+            """Expression of type K."""
+            if isinstance(n, ast.Constant):
+                return k_lit(n.value, n)
+            if isinstance(n, ast.Name) and n.id == "init_step_size" and have_init:
+                return "init_step_size"
+            if isinstance(n, ast.Attribute) and ast.unparse(n) == "self.log_step_size_reg_target":
+                if some_var is None:
+                    raise U("the optional setting log_step_size_reg_target is used as a number without an `is None` test", n)
+                return some_var
+            if isinstance(n, ast.Call) and isinstance(n.func, ast.Name) and n.func.id == "log" and len(n.args) == 1 and not n.keywords:
+                return f"log ({kx(n.args[0], some_var)})"
+            if isinstance(n, ast.BinOp) and type(n.op) in (ast.Add, ast.Sub, ast.Mult, ast.Div):
+                sym = {ast.Add: "+", ast.Sub: "-", ast.Mult: "*", ast.Div: "/"}[type(n.op)]
+                a, b = kx(n.left, some_var), kx(n.right, some_var)
+                return f"{paren(a)} {sym} {paren(b)}"
+            if isinstance(n, ast.BoolOp):
+                raise U("`or` / `and` of an optional float: an explicit falsy value (0.0) would be replaced (truthiness is not `is None`)", n)
+            raise U(f"unsupported expression in initialize: {ast.unparse(n)[:60]}", n)
+
+        def set_entry(key, e, node):
+            if dict_name is None:
+                raise U("the adapter state does not exist yet", node)
+            if key not in ("iter", "smoothed_log_step_size", "adapt_stat_error", "log_step_size_reg_target"):
+                raise U(f"unknown adapter state entry {key!r}", node)
+            nm = key
+            while any(l.startswith(f"let {nm} ") for l in lets):
+                nm += "'"
+            ty = "Nat" if key == "iter" else "K"
+            lets.append(f"let {nm} : {ty} := {e}")
+            state[key] = nm
+
+        body = strip_doc(fn.body)
+        if not body or not isinstance(body[-1], ast.Return):
+            raise U("initialize does not end with a return", fn)
+        for st in body[:-1]:
+            src = ast.unparse(st)
+            if isinstance(st, ast.Expr) and isinstance(st.value, ast.Constant):
+                continue
+            if isinstance(st, ast.Assign) and len(st.targets) == 1 and isinstance(st.targets[0], ast.Name):
+                tg = st.targets[0].id
+                if src in ("integrator = transition.integrator", "system = transition.system"):
+                    alias[tg] = ast.unparse(st.value)
+                    continue
+                if isinstance(st.value, ast.Dict) and dict_name is None:
+                    dict_name = tg
+                    for kn, vn in zip(st.value.keys, st.value.values, strict=True):
+                        if not (isinstance(kn, ast.Constant) and isinstance(kn.value, str)) or kn.value in state:
+                            raise U("key of the adapter state", st)
+                        if not isinstance(vn, ast.Constant):
+                            raise U(f"initial value of {kn.value!r} is not a literal", vn)
+                        set_entry(kn.value, nat_lit(vn.value, vn) if kn.value == "iter" else k_lit(vn.value, vn), vn)
+                    continue
+                if (tg == "init_step_size" and isinstance(st.value, ast.Call) and not st.value.keywords
+                        and ast.unparse(st.value.func) == "self._find_and_set_init_step_size" and not have_init):
+                    args = []
+                    for a in st.value.args:
+                        if isinstance(a, ast.Name) and a.id in alias:
+                            args.append(alias[a.id])
+                        elif isinstance(a, (ast.Name, ast.Attribute)):
+                            args.append(ast.unparse(a))
+                        else:
+                            raise U("argument of the search", a)
+                    da_init_side["search_args"] = args
+                    have_init = True
+                    continue
+                raise U(f"unsupported statement in initialize: {src[:60]}", st)
+            if (isinstance(st, ast.Assign) and len(st.targets) == 1 and isinstance(st.targets[0], ast.Subscript)
+                    and isinstance(st.targets[0].value, ast.Name) and st.targets[0].value.id == dict_name
+                    and isinstance(st.targets[0].slice, ast.Constant)):
+                set_entry(st.targets[0].slice.value, kx(st.value), st)
+                continue
+            if isinstance(st, ast.If) and ast.unparse(st.test) in ("self.log_step_size_reg_target is None", "self.log_step_size_reg_target is not None"):
+                none_br, some_br = (st.body, st.orelse) if ast.unparse(st.test).endswith("is None") else (st.orelse, st.body)
+
+                def one(br):
+                    if (len(br) == 1 and isinstance(br[0], ast.Assign) and len(br[0].targets) == 1
+                            and isinstance(br[0].targets[0], ast.Subscript) and ast.unparse(br[0].targets[0].value) == dict_name
+                            and isinstance(br[0].targets[0].slice, ast.Constant)):
+                        return br[0].targets[0].slice.value, br[0].value
+                    raise U("branch of the `is None` test does not just store one entry of the adapter state", st)
+
+                k1, v1 = one(none_br)
+                k2, v2 = one(some_br)
+                if k1 != k2:
+                    raise U("the two branches store different entries", st)
+                set_entry(k1, f"(match self_log_step_size_reg_target with | none => {kx(v1)} | some t => {kx(v2, 't')})", st)
+                continue
+            raise U(f"unsupported statement in initialize: {src[:60]}", st)
+        if not (isinstance(body[-1].value, ast.Name) and body[-1].value.id == dict_name):
+            raise U("initialize does not return the adapter state", body[-1])
+        need = ["iter", "smoothed_log_step_size", "adapt_stat_error", "log_step_size_reg_target"]
+        if any(k not in state for k in need):
+            raise U(f"adapter state lacks {[k for k in need if k not in state]}", fn)
+        if not have_init:
+            raise U("the initial step-size search is not called", fn)
+        return "\n".join(f"  {l}" for l in [*lets, "⟨" + ", ".join(state[k] for k in need) + "⟩"])
+
+    emit("da_initialize", "(self_log_step_size_reg_target : Option K) (log : K → K) (init_step_size : K)", "DAState K",
+         "⟨1, init_step_size, init_step_size, init_step_size⟩", build_da_initialize)
+    args = da_init_side["search_args"] or []
+    lines.append("/-- arguments of the call `self._find_and_set_init_step_size(…)` in `initialize` (for the parameters state, system, integrator) -/")
+    lines.append("def da_initialize_search_args : List String := [" + ", ".join('"' + a.replace('"', "'") + '"' for a in args) + "]")
+    lines.append("")
+
+    # ---- _find_and_set_init_step_size as a whole ---------------------------------------------
+    search_side = {"thr": 0}
+
+    def build_search_whole():  # noqa: C901
+        fn = find_func(tree, "_find_and_set_init_step_size", "DualAveragingStepSizeAdapter")
+        pos, kwo = arg_names(fn)
+        if pos != SEARCH_SIG or kwo or fn.decorator_list:
+            raise U("signature of _find_and_set_init_step_size changed", fn)
+        _, _, pre, lp, post = search_parts()
+        guard = None
+        e0 = None
+        thr = None
+        for st in pre[2:]:
+            src = ast.unparse(st)
+            if isinstance(st, ast.If) and guard is None and e0 is None:
+                if not (src.startswith("if np.isnan(h_init):") and not st.orelse and isinstance(st.body[-1], ast.Raise)
+                        and st.body[-1].exc is not None and ast.unparse(st.body[-1].exc).startswith("AdaptationError")
+                        and all(isinstance(b, ast.Assign) and isinstance(b.value, (ast.Constant, ast.JoinedStr)) for b in st.body[:-1])):
+                    raise U("NaN check of the initial Hamiltonian changed", st)
+                guard = "if h_init_isnan then .error .hInitNaN else"
+                continue
+            if (isinstance(st, ast.Assign) and ast.unparse(st.targets[0]) == "integrator.step_size" and e0 is None
+                    and isinstance(st.value, ast.Constant) and isinstance(st.value.value, (int, float)) and not isinstance(st.value.value, bool)):
+                v = float(st.value.value)
+                if not v > 0 or v == float("inf"):
+                    raise U("initial step size is not positive", st)
+                import math as _m
+                m, ex = _m.frexp(v)
+                if m != 0.5:
+                    raise U("initial step size is not a power of two", st)
+                e0 = ex - 1
+                continue
+            if (isinstance(st, ast.Assign) and ast.unparse(st.targets[0]) == "delta_h_threshold" and thr is None
+                    and isinstance(st.value, ast.Call) and ast.unparse(st.value.func) == "log" and len(st.value.args) == 1
+                    and isinstance(st.value.args[0], ast.Constant) and isinstance(st.value.args[0].value, int)
+                    and not isinstance(st.value.args[0].value, bool) and st.value.args[0].value > 0):
+                thr = st.value.args[0].value
+                continue
+            raise U(f"statement before the search loop outside the translated subset: {src[:60]}", st)
+        if e0 is None or thr is None:
+            raise U("initial step size / threshold is not set before the loop", fn)
+        search_side["thr"] = thr
+        a = lp.iter.args[0]
+
+        def fuel(n):
+            if ast.unparse(n) == "self.max_init_step_size_iters":
+                return "max_init_step_size_iters"
+            if isinstance(n, ast.Constant):
+                return nat_lit(n.value, n)
+            if isinstance(n, ast.BinOp) and isinstance(n.op, (ast.Add, ast.Sub, ast.Mult)):
+                sym = {ast.Add: "+", ast.Sub: "-", ast.Mult: "*"}[type(n.op)]
+                return f"({fuel(n.left)} {sym} {fuel(n.right)})"
+            raise U(f"loop bound {ast.unparse(n)[:40]}", n)
+
+        e0s = str(e0) if e0 >= 0 else f"({e0})"
+        out = [
+            *([guard] if guard else []),
+            f"let step_size_exponent : Int := {e0s}",
+            f"searchFor search_try search_except .noInitStepSize dH delta_h_threshold {fuel(a)} true step_size_exponent false",
+        ]
+        return "\n".join(f"  {l}" for l in out)
+
+    emit("find_init_step_size", "(h_init_isnan : Bool) (max_init_step_size_iters : Nat) (dH : Int → Outcome K) (delta_h_threshold : K)",
+         "Except AdaptErr Int", ".ok 0", build_search_whole, binders="{K : Type} [LT K] [LE K] [DecidableLT K] [DecidableLE K]")
+    lines.append("/-- `delta_h_threshold = log(<this>)` -/")
+    lines.append(f"def find_init_step_size_threshold : Nat := {search_side['thr']}")
+    lines.append("")
+
+    # ---- the three reducers of the module --------------------------------------------------
+    def red_ex(n, var=None):  # noqa: C901, PLR0911
+        if isinstance(n, ast.Name) and var is not None and n.id == var:
+            return var
+        if isinstance(n, ast.Call) and isinstance(n.func, ast.Name) and not n.keywords and len(n.args) == 1:
+            f, a = n.func.id, n.args[0]
+            if f == "exp":
+                return f"exp {paren(red_ex(a, var))}"
+            if f == "len" and isinstance(a, ast.Name) and a.id == "log_step_sizes" and var is None:
+                return "(log_step_sizes.length : K)"
+            if f == "sum" and isinstance(a, (ast.GeneratorExp, ast.ListComp)) and var is None:
+                g = a.generators
+                if (len(g) == 1 and not g[0].ifs and not g[0].is_async and isinstance(g[0].target, ast.Name)
+                        and isinstance(g[0].iter, ast.Name) and g[0].iter.id == "log_step_sizes"):
+                    v = g[0].target.id
+                    if isinstance(a.elt, ast.Name) and a.elt.id == v:
+                        return "log_step_sizes.foldl (· + ·) 0"
+                    return f"(log_step_sizes.map (fun {v} => {red_ex(a.elt, v)})).foldl (· + ·) 0"
+            if f == "sum" and isinstance(a, ast.Name) and a.id == "log_step_sizes" and var is None:
+                return "log_step_sizes.foldl (· + ·) 0"
+        if isinstance(n, ast.BinOp) and type(n.op) in (ast.Add, ast.Sub, ast.Mult, ast.Div):
+            sym = {ast.Add: "+", ast.Sub: "-", ast.Mult: "*", ast.Div: "/"}[type(n.op)]
+            return f"{paren(red_ex(n.left, var))} {sym} {paren(red_ex(n.right, var))}"
+        raise U(f"unsupported expression in a reducer: {ast.unparse(n)[:60]}", n)
+
+    def reducer_ret(name):
+        fn = find_func(tree, name)
+        body = strip_doc(fn.body)
+        if arg_names(fn) != (["log_step_sizes"], []) or fn.decorator_list or len(body) != 1 or not isinstance(body[0], ast.Return) or body[0].value is None:
+            raise U(f"{name} is not a single return of a function of log_step_sizes", fn)
+        return body[0].value
+
+    def build_reducer(name):
+        def build():
+            return "  " + red_ex(reducer_ret(name))
+
+        return build
+
+    def build_min_reducer():
+        v = reducer_ret("min_log_step_size_reducer")
+        if ast.unparse(v) != "exp(min(log_step_sizes))":
+            raise U(f"min reducer is not exp(min(log_step_sizes)): {ast.unparse(v)[:60]}", v)
+        return "  (pyMin log_step_sizes).map (fun m => exp m)"
+
+    emit("arith_reducer", "(exp : K → K) (log_step_sizes : List K)", "K", "exp 0", build_reducer("arithmetic_mean_log_step_size_reducer"))
+    emit("geom_reducer", "(exp : K → K) (log_step_sizes : List K)", "K", "exp 0", build_reducer("geometric_mean_log_step_size_reducer"))
+    emit("min_reducer", "(exp : K → K) (log_step_sizes : List K)", "Option K", "none", build_min_reducer, binders="{K : Type} [Min K]")
+
+    # ---- metric adapters: __init__ and initialize -------------------------------------------
+    def metric_init_fn(cls):
+        fn = find_func(tree, "__init__", cls)
+        pos, kwo = arg_names(fn)
+        if pos != ["self", "reg_iter_offset", "reg_scale"] or kwo or fn.decorator_list or len(fn.args.defaults) != 2:
+            raise U("signature of __init__ changed", fn)
+        return fn
+
+    def build_metric_defaults(cls):
+        def build():
+            d = metric_init_fn(cls).args.defaults
+            if not all(isinstance(x, ast.Constant) for x in d):
+                raise U("defaults are not literals")
+            return f"  ({nat_lit(d[0].value, d[0])}, {rat_lit(d[1].value, d[1])})"
+
+        return build
+
+    def build_metric_init(cls):
+        def build():
+            vals = self_assignments(metric_init_fn(cls), ["reg_iter_offset", "reg_scale"])
+            out = []
+            for f in ("reg_iter_offset", "reg_scale"):
+                v = vals[f]
+                if not (isinstance(v, ast.Name) and v.id == f):
+                    raise U(f"self.{f} = {ast.unparse(v)[:40]}: not the argument of the same name", v)
+                out.append(v.id)
+            return "  (" + ", ".join(out) + ")"
+
+        return build
+
+    def zeros(n, shapes):
+        src = ast.unparse(n)
+        if isinstance(n, ast.Constant):
+            return k_lit(n.value, n)
+        if src in shapes:
+            return "(0 : K)"
+        raise U(f"initial statistic {src[:60]} is not an array of zeros of the expected shape", n)
+
+    def build_metric_initialize(cls, key, vec):
+        def build():
+            fn = find_func(tree, "initialize", cls)
+            pos, kwo = arg_names(fn)
+            if pos != ["self", "chain_state", "transition"] or kwo or fn.decorator_list:
+                raise U("signature of initialize changed", fn)
+            body = strip_doc(fn.body)
+            pre = [ast.unparse(x) for x in body[:-1]]
+            if vec:
+                if pre != ["dim_pos = chain_state.pos.shape[0]", "dtype = chain_state.pos.dtype"]:
+                    raise U("statements before the return of initialize changed", fn)
+                mean_sh = {"np.zeros(shape=(dim_pos,), dtype=dtype)"}
+                sum_sh = {"np.zeros(shape=(dim_pos, dim_pos), dtype=dtype)"}
+            else:
+                if pre:
+                    raise U("statements before the return of initialize changed", fn)
+                mean_sh = sum_sh = {"np.zeros_like(chain_state.pos)"}
+            r = body[-1]
+            if not (isinstance(r, ast.Return) and isinstance(r.value, ast.Dict)):
+                raise U("initialize does not return a dictionary display", fn)
+            d = {}
+            for kn, vn in zip(r.value.keys, r.value.values, strict=True):
+                if not (isinstance(kn, ast.Constant) and isinstance(kn.value, str)) or kn.value in d:
+                    raise U("key of the adapter state", r)
+                d[kn.value] = vn
+            if set(d) != {"iter", "mean", key}:
+                raise U(f"adapter state has the entries {sorted(d)}", r)
+            if not isinstance(d["iter"], ast.Constant):
+                raise U("initial iteration count is not a literal", r)
+            it, mean, sm = nat_lit(d["iter"].value, d["iter"]), zeros(d["mean"], mean_sh), zeros(d[key], sum_sh)
+            return f"  ⟨{it}, {mean}, {mean}, {sm}, false⟩" if vec else f"  ⟨{it}, {mean}, {sm}⟩"
+
+        return build
+
+    for pfx, cls, key, vec in (("var", "OnlineVarianceMetricAdapter", "sum_diff_sq", False),
+                               ("cov", "OnlineCovarianceMetricAdapter", "sum_diff_outer", True)):
+        emit(f"{pfx}_init_defaults", "", "Nat × Rat", "(0, 0)", build_metric_defaults(cls), binders="")
+        emit(f"{pfx}_init", "(reg_iter_offset : Nat) (reg_scale : K)", "Nat × K", "(0, reg_scale)", build_metric_init(cls), binders="{K : Type}")
+        emit(f"{pfx}_initialize", "", "CState K" if vec else "WState K", "⟨1, 0, 0, 0, false⟩" if vec else "⟨1, 0, 0⟩",
+             build_metric_initialize(cls, key, vec))
+
+    # ---- whole finalize of the metric adapters ------------------------------------------------
+    METRIC_CLS = {"PositiveDiagonalMatrix": ".positiveDiagonal", "DensePositiveDefiniteMatrix": ".densePositiveDefinite"}
+
+    def build_finalize_whole(pfx, cls, key, est, meth, vec):  # noqa: C901
+        def build():  # noqa: C901, PLR0912
+            fn, acc_if, _, rest = finalize_tail(cls, est, meth)
+            merge_body(fn, True)  # shape of the loop over adapt_states (fails closed)
+            # dict branch: n_iter / the estimate from the single state; chain_states and rngs wrapped in lists
+            tr = NumTr("adapt_states", {"iter": ("Nat", "s.iter"), "mean": ("K", "s.meanA"), key: ("K", "s.c")}, {}, {})
+            wrapped = set()
+            for st in acc_if.body:
+                src = ast.unparse(st)
+                if src in ("chain_states = [chain_states]", "rngs = [rngs]"):
+                    wrapped.add(src.split(" ")[0])
+                    continue
+                if isinstance(st, ast.Assign) and isinstance(st.targets[0], ast.Name) and st.targets[0].id in ("n_iter", est):
+                    tr.run([st])
+                    continue
+                raise U(f"statement of the single-state branch outside the translated subset: {src[:60]}", st)
+            if wrapped != {"chain_states", "rngs"}:
+                raise U("the single chain state / generator is not wrapped in a list", acc_if)
+            if tr.lets and any(" := s." not in l for l in tr.lets):
+                raise U("single-state branch computes with the statistics", acc_if)
+            if "n_iter" not in tr.env or est not in tr.env or tr.env["n_iter"][0] != "Nat" or tr.env[est][0] != "K":
+                raise U("n_iter / the estimate is not taken from the single state", acc_if)
+            sub = {l.split(" ")[1]: l.split(" := ")[1] for l in tr.lets}
+            one = f"some ({sub[tr.env['n_iter'][1]]}, {sub[tr.env[est][1]]})"
+            loop = (f"(mergeLoop4 cov_merge_first cov_merge_step l).map (fun r => (r.1, r.2.2.2))" if vec
+                    else f"(mergeLoop3 var_merge_first var_merge_step l).map (fun r => (r.1, r.2.2))")
+            fin = f"{pfx}_finalize off scale {'diag ' if vec else ''}⟨n_iter, 0, 0, {est}, false⟩"
+            out = [
+                "let acc : Option (Nat × K) := match x with",
+                f"  | .inl s => {one}",
+                f"  | .inr l => {loop}",
+                "match acc with",
+                "| none => .error .tooFewSamples",
+                f"| some (n_iter, {est}) =>",
+                f"  match {fin} with",
+                "  | .error e => .error e",
+                f"  | .ok {est}' =>",
+            ]
+            metric, chains = "old_metric", None
+            ind = "    "
+            for st in rest:
+                src = ast.unparse(st)
+                if isinstance(st, ast.Expr) and isinstance(st.value, ast.Constant):
+                    continue
+                if isinstance(st, ast.Assign) and len(st.targets) == 1 and ast.unparse(st.targets[0]) == "transition.system.metric" and metric == "old_metric":
+                    v, inv = st.value, "false"
+                    if isinstance(v, ast.Attribute) and v.attr == "inv":
+                        v, inv = v.value, "true"
+                    if not (isinstance(v, ast.Call) and isinstance(v.func, ast.Name) and v.func.id in METRIC_CLS and not v.keywords
+                            and len(v.args) == 1 and isinstance(v.args[0], ast.Name) and v.args[0].id == est):
+                        raise U(f"new metric {src[:70]} is not <matrix class>({est})[.inv]", st)
+                    out.append(f"{ind}let metric : Met := mk ⟨{METRIC_CLS[v.func.id]}, {inv}, {est}'⟩")
+                    metric = "metric"
+                    continue
+                if isinstance(st, ast.For) and chains is None:
+                    if ast.unparse(st.target) != "(chain_state, rng)" or ast.unparse(st.iter) != "zip(chain_states, rngs, strict=True)" or st.orelse:
+                        raise U("header of the momentum refresh loop changed", st)
+                    out.append(f"{ind}let chain_states : List St := chains.map (fun c =>")
+                    out.append(f"{ind}  let chain_state : St := c.1")
+                    out.append(f"{ind}  let rng : Rng := c.2")
+                    for b in st.body:
+                        bs = ast.unparse(b)
+                        if isinstance(b, ast.Expr) and isinstance(b.value, ast.Constant):
+                            continue
+                        if bs == "chain_state.pos = chain_state.pos":
+                            out.append(f"{ind}  let chain_state : St := clear chain_state")
+                        elif bs == "chain_state.mom = transition.system.sample_momentum(chain_state, rng)":
+                            out.append(f"{ind}  let chain_state : St := setMom chain_state (sample {metric} chain_state rng)")
+                        else:
+                            raise U(f"statement of the momentum refresh loop outside the translated subset: {bs[:70]} "
+                                    "(each chain's momentum must be drawn by system.sample_momentum(chain_state, rng) with its own generator)", b)
+                    out.append(f"{ind}  chain_state)")
+                    chains = "chain_states"
+                    continue
+                raise U(f"statement after the regularisation outside the translated subset: {src[:70]}", st)
+            out.append(f"{ind}.ok ({metric}, {chains or 'chains.map (fun c => c.1)'})")
+            return "\n".join(f"  {l}" for l in out)
+
+        return build
+
+    FW_BINDERS = "{K Met St Rng Mom : Type} [Zero K] [One K] [Add K] [Sub K] [Mul K] [Div K] [NatCast K]"
+    FW_ARGS = ("(mk : MetricAssign K → Met) (clear : St → St) (setMom : St → Mom → St) (sample : Met → St → Rng → Mom) "
+               "(old_metric : Met) (x : CState K ⊕ List (CState K)) (chains : List (St × Rng))")
+    emit("var_finalize_whole", "(off : Nat) (scale : K) " + FW_ARGS, "Except AdaptErr (Met × List St)", ".error .hInitNaN",
+         build_finalize_whole("var", "OnlineVarianceMetricAdapter", "sum_diff_sq", "var_est", "_regularize_var_est", False), binders=FW_BINDERS)
+    emit("cov_finalize_whole", "(off : Nat) (scale : K) (diag : Bool) " + FW_ARGS, "Except AdaptErr (Met × List St)", ".error .hInitNaN",
+         build_finalize_whole("cov", "OnlineCovarianceMetricAdapter", "sum_diff_outer", "covar_est", "_regularize_covar_est", True), binders=FW_BINDERS)
+
 
     lines.append("end MiciVerif.Generated.AdaptersSrc")
     (out / "AdaptersSrc.lean").write_text("\n".join(lines) + "\n")
